@@ -5,7 +5,8 @@ S=/var/tmp/avx/repo
 mkdir -p $S
 rsync -a --delete --exclude target --exclude .git ${SRC:-/repo}/ $S/ --exclude src/kani_verif
 rsync -a --delete /verif/kani/ $S/src/kani_verif/
-cp /verif/contracts/post.rs $S/src/kani_verif/post.rs 2>/dev/null
+cp /verif/contracts/post.rs $S/src/kani_verif/post.rs
+python3 -c "import sys; sys.path.insert(0,'/verif'); import checks; checks.write_instances('$S/src/kani_verif', checks.ALL)"
 cd $S
 EXTRA=""
 if [ "$1" = "-f" ]; then EXTRA="$2"; shift; shift; fi
